@@ -82,42 +82,44 @@ Occ(v, nm) == IF v.k = "obj" THEN (IF v.s = nm THEN 1 ELSE 0)
 OccS(vs, nm, n) == IF n = 0 THEN 0 ELSE Occ(vs[n], nm) + OccS(vs, nm, n - 1)
 
 ---------------------------------------------------------------------------
-(* evaluation state *)
-St0(k) == [log |-> <<>>, cnt |-> 0, k |-> k, nid |-> 0, exc |-> "", sig |-> "", rv |-> NoneV,
+(* evaluation state.  log: the fallible calls in order; sites: for each of them the syntax form that issued it;  *)
+(* sem: semantic events worth naming in a case description (a pending return / exception that is discarded)      *)
+St0(k) == [log |-> <<>>, sites |-> <<>>, sem |-> <<>>, cnt |-> 0, k |-> k, nid |-> 0, exc |-> "", sig |-> "", rv |-> NoneV,
            x |-> Unb, y |-> Unb, ci |-> 0, g |-> NoneV]
 Res(st, v) == [st |-> st, v |-> v]
 Raise(st, e) == [st EXCEPT !.exc = e, !.sig = ""]
 Abn(st) == st.exc # "" \/ st.sig # ""
+Sem(st, s) == [st EXCEPT !.sem = Append(@, s)]
 
 \* one fallible protocol call on a tracked object: logged, counted, raises when it is the k-th
-Fall(st, self, op, arg) ==
-  LET s1 == [st EXCEPT !.log = Append(@, self.s \o "." \o op \o "(" \o arg \o ")"), !.cnt = @ + 1]
+Fall(st, self, op, arg, site) ==
+  LET s1 == [st EXCEPT !.log = Append(@, self.s \o "." \o op \o "(" \o arg \o ")"), !.sites = Append(@, site), !.cnt = @ + 1]
   IN IF s1.cnt = s1.k THEN Raise(s1, "InjectedError") ELSE s1
 \* the next fresh tracked object; it inherits the truth of the receiver
 Fresh(st, self) == Res([st EXCEPT !.nid = @ + 1], ObjV("V" \o ToString(st.nid + 1), self.t))
-Proto(st, self, op, arg) ==
-  LET s1 == Fall(st, self, op, arg) IN IF s1.exc # "" THEN Res(s1, NoneV) ELSE Fresh(s1, self)
-Truth(st, v) == IF v.k = "obj" THEN [st |-> Fall(st, v, "bool", ""), b |-> v.t] ELSE [st |-> st, b |-> v.t]
+Proto(st, self, op, arg, site) ==
+  LET s1 == Fall(st, self, op, arg, site) IN IF s1.exc # "" THEN Res(s1, NoneV) ELSE Fresh(s1, self)
+Truth(st, v, site) == IF v.k = "obj" THEN [st |-> Fall(st, v, "bool", "", site), b |-> v.t] ELSE [st |-> st, b |-> v.t]
 
 GetLoc(st, n) == IF n = "x" THEN st.x ELSE st.y
 SetLoc(st, n, v) == IF n = "x" THEN [st EXCEPT !.x = v] ELSE IF n = "y" THEN [st EXCEPT !.y = v] ELSE [st EXCEPT !.g = v]
 
 Apply(e, s, vs) ==
-  CASE e.t = "add"     -> Proto(s, vs[1], "add", Rp(vs[2]))
-    [] e.t = "neg"     -> Proto(s, vs[1], "neg", "")
-    [] e.t = "lt"      -> Proto(s, vs[1], "lt", Rp(vs[2]))
-    [] e.t = "getitem" -> Proto(s, vs[1], "getitem", Rp(vs[2]))
-    [] e.t = "getci"   -> Proto(s, vs[1], "getitem", ToString(s.ci))
-    [] e.t = "attr"    -> Proto(s, vs[1], "getattr", "p")
+  CASE e.t = "add"     -> Proto(s, vs[1], "add", Rp(vs[2]), "add")
+    [] e.t = "neg"     -> Proto(s, vs[1], "neg", "", "neg")
+    [] e.t = "lt"      -> Proto(s, vs[1], "lt", Rp(vs[2]), "lt")
+    [] e.t = "getitem" -> Proto(s, vs[1], "getitem", Rp(vs[2]), "getitem")
+    [] e.t = "getci"   -> Proto(s, vs[1], "getitem", ToString(s.ci), "getci")
+    [] e.t = "attr"    -> Proto(s, vs[1], "getattr", "p", "attr")
     [] e.t = "call"    -> Proto(s, vs[1], "call",
                             CASE e.s = ""   -> ""
                               [] e.s = "p"  -> Rp(vs[2])
                               [] e.s = "pp" -> Rp(vs[2]) \o "," \o Rp(vs[3])
                               [] e.s = "pk" -> Rp(vs[2]) \o ";k=" \o Rp(vs[3])
                               [] e.s = "s"  -> RpS(vs[2].it, 1)
-                              [] e.s = "ps" -> Rp(vs[2]) \o "," \o RpS(vs[3].it, 1))
-    [] e.t = "in"      -> Res(Fall(s, vs[2], "contains", Rp(vs[1])), BoolV(vs[2].t))
-    [] e.t = "str"     -> Res(Fall(s, vs[1], "str", ""), StrV(vs[1].s))
+                              [] e.s = "ps" -> Rp(vs[2]) \o "," \o RpS(vs[3].it, 1), "call:" \o e.s)
+    [] e.t = "in"      -> Res(Fall(s, vs[2], "contains", Rp(vs[1]), "in"), BoolV(vs[2].t))
+    [] e.t = "str"     -> Res(Fall(s, vs[1], "str", "", "str"), StrV(vs[1].s))
     [] e.t \in Containers -> Res(s, SeqV(e.t, vs))
 
 RECURSIVE Eval(_, _), EvalSeq(_, _, _, _)
@@ -135,43 +137,43 @@ Eval(e, st) ==
   ELSE IF e.t \in {"and", "or"} THEN
     LET x == Eval(e.a[1], st) IN
     IF x.st.exc # "" THEN x
-    ELSE LET tr == Truth(x.st, x.v) IN
+    ELSE LET tr == Truth(x.st, x.v, e.t) IN
          IF tr.st.exc # "" THEN Res(tr.st, NoneV)
          ELSE IF tr.b = (e.t = "or") THEN Res(tr.st, x.v) ELSE Eval(e.a[2], tr.st)
   ELSE IF e.t = "not" THEN
     LET x == Eval(e.a[1], st) IN
-    IF x.st.exc # "" THEN x ELSE LET tr == Truth(x.st, x.v) IN Res(tr.st, BoolV(~tr.b))
+    IF x.st.exc # "" THEN x ELSE LET tr == Truth(x.st, x.v, "not") IN Res(tr.st, BoolV(~tr.b))
   ELSE IF e.t = "cond" THEN                 \* a[1] if a[2] else a[3]
     LET c == Eval(e.a[2], st) IN
     IF c.st.exc # "" THEN c
-    ELSE LET tr == Truth(c.st, c.v) IN
+    ELSE LET tr == Truth(c.st, c.v, "cond") IN
          IF tr.st.exc # "" THEN Res(tr.st, NoneV)
          ELSE IF tr.b THEN Eval(e.a[1], tr.st) ELSE Eval(e.a[3], tr.st)
   ELSE IF e.t = "lt3" THEN                  \* a < b < c : b once, c only when a < b is true
     LET r == EvalSeq(<<e.a[1], e.a[2]>>, 1, st, <<>>) IN
     IF r.st.exc # "" THEN Res(r.st, NoneV)
-    ELSE LET c1 == Proto(r.st, r.vs[1], "lt", Rp(r.vs[2])) IN
+    ELSE LET c1 == Proto(r.st, r.vs[1], "lt", Rp(r.vs[2]), "lt3") IN
          IF c1.st.exc # "" THEN c1
-         ELSE LET tr == Truth(c1.st, c1.v) IN
+         ELSE LET tr == Truth(c1.st, c1.v, "lt3") IN
               IF tr.st.exc # "" THEN Res(tr.st, NoneV)
               ELSE IF ~tr.b THEN Res(tr.st, c1.v)
               ELSE LET z == Eval(e.a[3], tr.st) IN
-                   IF z.st.exc # "" THEN z ELSE Proto(z.st, r.vs[2], "lt", Rp(z.v))
+                   IF z.st.exc # "" THEN z ELSE Proto(z.st, r.vs[2], "lt", Rp(z.v), "lt3")
   ELSE IF e.t = "fstr" THEN                 \* f"{a}{b}" : a is formatted before b is evaluated
     LET x == Eval(e.a[1], st) IN
     IF x.st.exc # "" THEN x
-    ELSE LET f1 == Fall(x.st, x.v, "format", "") IN
+    ELSE LET f1 == Fall(x.st, x.v, "format", "", "fstr") IN
          IF f1.exc # "" THEN Res(f1, NoneV)
          ELSE LET y == Eval(e.a[2], f1) IN
               IF y.st.exc # "" THEN y
-              ELSE Res(Fall(y.st, y.v, "format", ""), StrV(x.v.s \o y.v.s))
+              ELSE Res(Fall(y.st, y.v, "format", "", "fstr"), StrV(x.v.s \o y.v.s))
   ELSE LET r == EvalSeq(e.a, 1, st, <<>>) IN
        IF r.st.exc # "" THEN Res(r.st, NoneV) ELSE Apply(e, r.st, r.vs)
 
 ---------------------------------------------------------------------------
 (* statements.  Exec is entered with exc = "" and sig = "" *)
-IterOf(st, src) ==     \* iter(src): fallible; the iterator is a tracked object of its own
-  LET s1 == Fall(st, src, "iter", "") IN IF s1.exc # "" THEN Res(s1, NoneV) ELSE Fresh(s1, src)
+IterOf(st, src, site) ==     \* iter(src): fallible; the iterator is a tracked object of its own
+  LET s1 == Fall(st, src, "iter", "", site) IN IF s1.exc # "" THEN Res(s1, NoneV) ELSE Fresh(s1, src)
 
 RECURSIVE Exec(_, _), ExecSeq(_, _, _), LoopO(_, _, _, _, _), LoopD(_, _, _, _, _)
 ExecSeq(ss, i, st) == IF i > Len(ss) \/ Abn(st) THEN st ELSE ExecSeq(ss, i + 1, Exec(ss[i], st))
@@ -179,7 +181,7 @@ ExecSeq(ss, i, st) == IF i > Len(ss) \/ Abn(st) THEN st ELSE ExecSeq(ss, i + 1, 
 AfterBody(st) == IF st.sig \in {"brk", "cnt"} THEN [st EXCEPT !.sig = ""] ELSE st
 \* loop over a tracked iterator that yields two fresh objects and then stops
 LoopO(itv, n, tg, body, st) ==
-  LET s1 == Fall(st, itv, "next", "") IN
+  LET s1 == Fall(st, itv, "next", "", "for") IN
   IF s1.exc # "" \/ n = 2 THEN s1
   ELSE LET f  == Fresh(s1, itv)
            s3 == Exec(body, SetLoc(f.st, tg, f.v))
@@ -189,6 +191,9 @@ LoopD(items, i, tg, body, st) ==
   IF i > Len(items) THEN st
   ELSE LET s3 == Exec(body, SetLoc(st, tg, items[i]))
        IN IF s3.exc # "" \/ s3.sig \in {"ret", "brk"} THEN AfterBody(s3) ELSE LoopD(items, i + 1, tg, body, AfterBody(s3))
+
+\* what is pending when a finally clause / __exit__ starts
+Pending(st) == IF st.exc # "" THEN "exc" ELSE IF st.sig # "" THEN st.sig ELSE ""
 
 Exec(s, st) ==
   CASE s.t = "pass" -> st
@@ -200,21 +205,21 @@ Exec(s, st) ==
          LET r == Eval(s.a[1], st) IN
          IF r.st.exc # "" THEN r.st
          ELSE IF r.v.k \in Containers THEN SetLoc(SetLoc(r.st, "x", r.v.it[1]), "y", r.v.it[2])
-         ELSE LET it == IterOf(r.st, r.v) IN
+         ELSE LET it == IterOf(r.st, r.v, "unpack") IN
               IF it.st.exc # "" THEN it.st
-              ELSE LET n1 == Fall(it.st, it.v, "next", "") IN IF n1.exc # "" THEN n1
-              ELSE LET f1 == Fresh(n1, it.v)  n2 == Fall(f1.st, it.v, "next", "") IN IF n2.exc # "" THEN n2
-              ELSE LET f2 == Fresh(n2, it.v)  n3 == Fall(f2.st, it.v, "next", "") IN IF n3.exc # "" THEN n3
+              ELSE LET n1 == Fall(it.st, it.v, "next", "", "unpack") IN IF n1.exc # "" THEN n1
+              ELSE LET f1 == Fresh(n1, it.v)  n2 == Fall(f1.st, it.v, "next", "", "unpack") IN IF n2.exc # "" THEN n2
+              ELSE LET f2 == Fresh(n2, it.v)  n3 == Fall(f2.st, it.v, "next", "", "unpack") IN IF n3.exc # "" THEN n3
               ELSE SetLoc(SetLoc(n3, "x", f1.v), "y", f2.v)
     [] s.t = "setitem" ->               \* a[1][a[2]] = a[3] : value, container, index
          LET r == EvalSeq(<<s.a[3], s.a[1], s.a[2]>>, 1, st, <<>>) IN
-         IF r.st.exc # "" THEN r.st ELSE Fall(r.st, r.vs[2], "setitem", Rp(r.vs[3]) \o "," \o Rp(r.vs[1]))
+         IF r.st.exc # "" THEN r.st ELSE Fall(r.st, r.vs[2], "setitem", Rp(r.vs[3]) \o "," \o Rp(r.vs[1]), "setitem")
     [] s.t = "setattr" ->               \* a[1].p = a[2] : value, object
          LET r == EvalSeq(<<s.a[2], s.a[1]>>, 1, st, <<>>) IN
-         IF r.st.exc # "" THEN r.st ELSE Fall(r.st, r.vs[2], "setattr", "p," \o Rp(r.vs[1]))
+         IF r.st.exc # "" THEN r.st ELSE Fall(r.st, r.vs[2], "setattr", "p," \o Rp(r.vs[1]), "setattr")
     [] s.t = "delitem" ->
          LET r == EvalSeq(s.a, 1, st, <<>>) IN
-         IF r.st.exc # "" THEN r.st ELSE Fall(r.st, r.vs[1], "delitem", Rp(r.vs[2]))
+         IF r.st.exc # "" THEN r.st ELSE Fall(r.st, r.vs[1], "delitem", Rp(r.vs[2]), "delitem")
     [] s.t = "dellocal" ->
          IF GetLoc(st, s.s).k = "unb" THEN Raise(st, "UnboundLocalError") ELSE SetLoc(st, s.s, Unb)
     [] s.t = "aug" ->                   \* x += e
@@ -222,23 +227,23 @@ Exec(s, st) ==
          IF cur.k = "unb" THEN Raise(st, "UnboundLocalError")
          ELSE LET r == Eval(s.a[1], st) IN
               IF r.st.exc # "" THEN r.st
-              ELSE LET p == Proto(r.st, cur, "iadd", Rp(r.v)) IN
+              ELSE LET p == Proto(r.st, cur, "iadd", Rp(r.v), "aug") IN
                    IF p.st.exc # "" THEN p.st ELSE SetLoc(p.st, s.s, p.v)
     [] s.t = "cint" ->                  \* ci = int(e)   (ci is a C integer in the compiled code)
          LET r == Eval(s.a[1], st) IN
          IF r.st.exc # "" THEN r.st
-         ELSE LET s1 == Fall(r.st, r.v, "int", "") IN
+         ELSE LET s1 == Fall(r.st, r.v, "int", "", "cint") IN
               IF s1.exc # "" THEN s1 ELSE [s1 EXCEPT !.ci = IF r.v.t THEN 2 ELSE 0]
     [] s.t = "if" ->
          LET r == Eval(s.a[1], st) IN
          IF r.st.exc # "" THEN r.st
-         ELSE LET tr == Truth(r.st, r.v) IN
+         ELSE LET tr == Truth(r.st, r.v, "if") IN
               IF tr.st.exc # "" THEN tr.st ELSE IF tr.b THEN Exec(s.a[2], tr.st) ELSE Exec(s.a[3], tr.st)
     [] s.t = "for" ->
          LET r == Eval(s.a[1], st) IN
          IF r.st.exc # "" THEN r.st
          ELSE IF r.v.k \in Containers THEN LoopD(r.v.it, 1, s.s, s.a[2], r.st)
-         ELSE LET it == IterOf(r.st, r.v) IN
+         ELSE LET it == IterOf(r.st, r.v, "for") IN
               IF it.st.exc # "" THEN it.st ELSE LoopO(it.v, 0, s.s, s.a[2], it.st)
     [] s.t = "break" -> [st EXCEPT !.sig = "brk"]
     [] s.t = "continue" -> [st EXCEPT !.sig = "cnt"]
@@ -248,19 +253,22 @@ Exec(s, st) ==
     [] s.t = "tryfin" ->                \* try: a[1]  finally: a[2]
          LET s1 == Exec(s.a[1], st)
              s2 == Exec(s.a[2], [s1 EXCEPT !.exc = "", !.sig = ""])
-         IN IF Abn(s2) THEN s2 ELSE [s2 EXCEPT !.exc = s1.exc, !.sig = s1.sig, !.rv = s1.rv]
+         IN IF Abn(s2)                    \* the finally clause raised or jumped: what was pending is discarded
+            THEN IF Pending(s1) = "" THEN s2 ELSE Sem(s2, "drop:" \o Pending(s1) \o ":fin:" \o Pending(s2))
+            ELSE [s2 EXCEPT !.exc = s1.exc, !.sig = s1.sig, !.rv = s1.rv]
     [] s.t = "with" ->                  \* with a[1] [as s.s]: a[2]
          LET r == Eval(s.a[1], st) IN
          IF r.st.exc # "" THEN r.st
-         ELSE LET en == Proto(r.st, r.v, "enter", "") IN
+         ELSE LET en == Proto(r.st, r.v, "enter", "", "with") IN
               IF en.st.exc # "" THEN en.st
               ELSE LET s2 == IF s.s = "" THEN en.st ELSE SetLoc(en.st, s.s, en.v)
                        s3 == Exec(s.a[2], s2)
                    IN IF s3.exc = ""
-                      THEN Fall(s3, r.v, "exit", "None")        \* a raise in __exit__ replaces return/break/continue
-                      ELSE LET x1 == Fall([s3 EXCEPT !.exc = ""], r.v, "exit", s3.exc) IN
-                           IF x1.exc # "" THEN x1                 \* __exit__ itself raised
-                           ELSE IF r.v.t THEN x1                  \* truthy manager: exception suppressed
+                      THEN LET x0 == Fall(s3, r.v, "exit", "None", "with") IN    \* a raise in __exit__ replaces return/break/continue
+                           IF x0.exc # "" /\ s3.sig # "" THEN Sem(x0, "drop:" \o s3.sig \o ":with:exc") ELSE x0
+                      ELSE LET x1 == Fall([s3 EXCEPT !.exc = ""], r.v, "exit", s3.exc, "with") IN
+                           IF x1.exc # "" THEN Sem(x1, "drop:exc:with:exc")      \* __exit__ itself raised
+                           ELSE IF r.v.t THEN Sem(x1, "suppressed")               \* truthy manager: exception suppressed
                            ELSE [x1 EXCEPT !.exc = s3.exc]
 
 Names(nid) == <<"a", "b">> \o [i \in 1..nid |-> "V" \o ToString(i)]
@@ -269,7 +277,7 @@ Run(p, k) ==
       rv  == IF s.exc = "" /\ s.sig = "ret" THEN s.rv ELSE NoneV
       nms == Names(s.nid)
       rc(nm) == (IF nm \in {"a", "b"} THEN 1 ELSE 0) + Occ(rv, nm) + Occ(s.g, nm)
-  IN [exc |-> s.exc, log |-> s.log, cnt |-> s.cnt, nid |-> s.nid,
+  IN [exc |-> s.exc, log |-> s.log, sites |-> s.sites, sem |-> s.sem, cnt |-> s.cnt, nid |-> s.nid,
       res |-> IF s.exc # "" THEN "" ELSE Rp(rv), glob |-> Rp(s.g),
       alive |-> SelectSeq([i \in 1..Len(nms) |-> [nm |-> nms[i], rc |-> rc(nms[i])]], LAMBDA r : r.rc > 0)]
 
@@ -349,15 +357,25 @@ SysProgs2 == <<
   <<WithS("", A, GAsg(AddAB))>>,
   <<WithS("x", A, GAsg(E1("neg", X))), Ret(X)>>,
   <<WithS("x", B, Ret(E2("add", X, A)))>>,
-  <<WithS("", A, ExprS(Y)), Asg("y", A), Ret(NegB)>>,
-  <<WithS("", B, ExprS(Y)), Asg("y", A), Ret(NegB)>>,
+  <<WithS("", A, ExprS(E1("neg", Y))), Asg("y", A), Ret(NegB)>>,
+  <<WithS("", B, ExprS(E1("neg", Y))), Asg("y", A), Ret(NegB)>>,
   <<WithS("x", A, WithS("y", X, GAsg(Tup(X, Y)))), Ret(Y)>>,
   <<WithS("x", AddAB, TryF(Ret(X), GAsg(NegB)))>>,
   <<ForS("x", A, WithS("y", X, Nd("break", "", <<>>))), Ret(Tup(X, Y))>>,
   <<ForS("x", A, WithS("y", X, Nd("continue", "", <<>>))), Ret(Y)>>,
   <<TryE(WithS("x", B, GAsg(E2("add", X, X))), GAsg(A)), Ret(NegB)>>,
   <<TryF(WithS("", A, Asg("x", NegB)), Asg("y", AddAB)), Ret(Tup(X, Y))>>,
-  <<ExprS(X), Asg("x", A)>>,
+  <<ExprS(E1("neg", X)), Asg("x", A)>>,
+  <<ForS("x", A, TryF(Ret(E1("neg", X)), Nd("break", "", <<>>))), Ret(X)>>,
+  <<ForS("x", A, TryF(Ret(E1("neg", X)), Nd("continue", "", <<>>))), Ret(X)>>,
+  <<ForS("x", Tup(AddAB, NegB), TryF(Ret(X), Nd("break", "", <<>>))), Ret(NegB)>>,
+  <<ForS("x", A, TryF(GAsg(E1("neg", Y)), Nd("break", "", <<>>))), Asg("y", A)>>,
+  <<TryF(Ret(AddAB), IfS(A, Ret(NegB), PassS))>>,
+  <<TryF(ExprS(E1("neg", Y)), Ret(A)), Asg("y", A)>>,
+  <<TryF(TryF(Ret(AddAB), GAsg(NegB)), GAsg(E1("neg", A)))>>,
+  <<TryF(Ret(AddAB), WithS("x", A, GAsg(X)))>>,
+  <<TryE(TryF(Ret(AddAB), GAsg(NegB)), Ret(E1("neg", A)))>>,
+  <<WithS("x", A, TryE(Ret(E1("neg", X)), Ret(X)))>>,
   <<IfS(B, Asg("x", A), PassS), Nd("aug", "x", <<A>>), Ret(X)>>,
   <<Asg("x", E3("lt3", A, AddAB, NegB)), Ret(X)>>,
   <<IfS(E1("not", E2("in", A, B)), Ret(E2("fstr", A, AddAB)), Ret(E1("str", NegB)))>>
@@ -371,9 +389,18 @@ OAtoms(bd) == <<A, B, A, B>> \o (IF "x" \in bd THEN <<X, X>> ELSE <<>>) \o (IF "
 
 \* operands of truth tests and left operands of and/or are never and/or/chains themselves (CPython tests the
 \* value of a nested boolean operation a second time; that is not the subject here)
+\* (a tuple display of C-typed elements -- results of not / in -- in a truth test is C20's ctuple finding: made a list)
 RECURSIVE Strip(_)
 Strip(e) == IF e.t \in BoolOps THEN Strip(e.a[1])
-            ELSE IF e.t = "cond" THEN Nd("cond", "", <<Strip(e.a[1]), e.a[2], Strip(e.a[3])>>) ELSE e
+            ELSE IF e.t = "cond" THEN Nd("cond", "", <<Strip(e.a[1]), e.a[2], Strip(e.a[3])>>)
+            ELSE IF e.t = "tuple" /\ \A i \in 1..Len(e.a) : e.a[i].t \in {"not", "in"} THEN Nd("list", "", e.a)
+            ELSE e
+\* the callee of a call is never an attribute access (method calls evaluate their arguments before the attribute
+\* lookup in the compiled code: C20's finding, not the subject here)
+RECURSIVE NoAttr(_)
+NoAttr(e) == IF e.t = "attr" THEN NoAttr(e.a[1]) ELSE e
+\* an expression statement is never a bare name (the compiler under test drops it)
+NoBare(e) == IF e.t \in {"name", "none"} THEN E1("neg", IF e.t = "none" THEN A ELSE e) ELSE e
 
 RECURSIVE GenO(_, _, _), GenV(_, _, _)
 GenO(d, h, bd) ==
@@ -389,16 +416,16 @@ GenO(d, h, bd) ==
             [] c = 5  -> E3("lt3", O1, O2, O3)
             [] c = 6  -> E2("getitem", O1, V1)
             [] c = 7  -> E1("attr", O1)
-            [] c = 8  -> CallE("p", <<O1, V1>>)
-            [] c = 9  -> CallE("pk", <<O1, V1, V2>>)
-            [] c = 10 -> CallE("s", <<O1, Nd(IF h % 2 = 0 THEN "tuple" ELSE "list", "", <<V1, V2>>)>>)
+            [] c = 8  -> CallE("p", <<NoAttr(O1), V1>>)
+            [] c = 9  -> CallE("pk", <<NoAttr(O1), V1, V2>>)
+            [] c = 10 -> CallE("s", <<NoAttr(O1), Nd(IF h % 2 = 0 THEN "tuple" ELSE "list", "", <<V1, V2>>)>>)
             [] c = 11 -> E3("cond", O1, C1, O2)
             [] c = 12 -> E2("and", Strip(O1), O2)
             [] c = 13 -> E2("or", Strip(O1), O2)
             [] c = 14 -> E1("getci", O1)
-            [] c = 15 -> CallE("", <<O1>>)
-            [] c = 16 -> CallE("pp", <<O1, V1, V2>>)
-            [] c = 17 -> CallE("ps", <<O1, V1, Tup(V2, O2)>>)
+            [] c = 15 -> CallE("", <<NoAttr(O1)>>)
+            [] c = 16 -> CallE("pp", <<NoAttr(O1), V1, V2>>)
+            [] c = 17 -> CallE("ps", <<NoAttr(O1), V1, Tup(V2, O2)>>)
             [] c = 18 -> E2("add", O1, O2)
 GenV(d, h, bd) ==
   IF d = 0 THEN Pick(OAtoms(bd) \o <<NoneE>>, h)
@@ -446,7 +473,7 @@ GenSimple(h, bd, lp) ==
        [] c = 3  -> Asg("G", V1)
        [] c = 4  -> Ret(V1)
        [] c = 5  -> Ret(O1)
-       [] c = 6  -> ExprS(V1)
+       [] c = 6  -> ExprS(NoBare(V1))
        [] c = 7  -> Unpack(IF h % 3 = 0 THEN O1 ELSE Nd(IF h % 3 = 1 THEN "tuple" ELSE "list", "", <<O1, O2>>))
        [] c = 8  -> Nd("setitem", "", <<O2, V2, V1>>)
        [] c = 9  -> Nd("setattr", "", <<O2, V1>>)
@@ -467,7 +494,7 @@ GenS(d, h, bd, lp) ==
            LB == GenS(d - 1, Mix(h, 26), bd \cup {tg}, TRUE)
            LB2 == GenS(d - 1, Mix(h, 27), bd \cup {tg} \cup AsgOf(LB), TRUE)
            WB == GenS(d - 1, Mix(h, 28), bd \cup {tg}, lp)
-           NF == GenS(d - 1, Mix(h, 29), bd \cup AsgOf(S1), FALSE)      \* no break/continue in a finally body
+           NF == GenS(d - 1, Mix(h, 29), bd \cup AsgOf(S1), lp)
        IN CASE c = 0 -> IfS(C1, S1, GenS(d - 1, Mix(h, 30), bd, lp))
             [] c = 1 -> IfS(C1, S1, PassS)
             [] c = 2 -> ForS(tg, IF h % 3 = 0 THEN Nd(IF h % 2 = 0 THEN "tuple" ELSE "list", "", <<O1, GenO(1, Mix(h, 31), bd)>>) ELSE O1,
@@ -494,7 +521,7 @@ ProgOf(p) == IF p <= NSys THEN Sys[p] ELSE GenProg(Mix(Mix(Seed % 65537, p), 5))
 VARIABLES phase, pid, prog, k, obs, clean
 vars == <<phase, pid, prog, k, obs, clean>>
 
-Obs0 == [exc |-> "", log |-> <<>>, cnt |-> 0, nid |-> 0, res |-> "", glob |-> "", alive |-> <<>>]
+Obs0 == [exc |-> "", log |-> <<>>, sites |-> <<>>, sem |-> <<>>, cnt |-> 0, nid |-> 0, res |-> "", glob |-> "", alive |-> <<>>]
 Init == phase = "root" /\ pid = 0 /\ prog = Nd("prog", "", <<>>) /\ k = 0 /\ obs = Obs0 /\ clean = <<>>
 PickProg == /\ phase = "root" /\ phase' = "case"
             /\ \E p \in 1..(NSys + NRand) :
@@ -532,5 +559,5 @@ NoOrphans  == (Case /\ obs.exc # "" /\ obs.glob = "None") => Len(obs.alive) = 2 
 
 Publish == (Dump /\ Case) =>
    PrintT("@@" \o ToJson([pid |-> pid, k |-> k, prog |-> prog, exc |-> obs.exc, log |-> obs.log, res |-> obs.res,
-                           glob |-> obs.glob, alive |-> obs.alive, nf |-> Len(clean)]))
+                           glob |-> obs.glob, alive |-> obs.alive, nf |-> Len(clean), sites |-> obs.sites, sem |-> obs.sem]))
 =============================================================================
